@@ -79,6 +79,7 @@ class Cursor:
         self._context = connection
         self._description = None
         self._rows = None
+        self._rowcount = -1
         self._pos = 0
         self.arraysize = 1
 
@@ -93,6 +94,7 @@ class Cursor:
         description, rows = query_execute.execute_query(query)
         self._description = description
         self._rows = rows
+        self._rowcount = len(rows)
         self._pos = 0
         return self
 
@@ -107,7 +109,7 @@ class Cursor:
 
     @property
     def rowcount(self):
-        return len(self._rows) if self._rows is not None else -1
+        return self._rowcount
 
     @property
     def rownumber(self):
